@@ -252,6 +252,7 @@ func c04Limit(p *core.Program, r *core.Report) {
 		}
 		mentions := func(e ast.Expr) bool {
 			found := false
+			e = expandLocals(info, fi.Decl.Body, e) // limit := int32(max) stands for max
 			ast.Inspect(e, func(m ast.Node) bool {
 				if id, ok := m.(*ast.Ident); ok && limits[info.ObjectOf(id)] {
 					found = true
